@@ -133,3 +133,65 @@ theorem outs_ne_nil_of_coinbase (p : Params) (outs : List OutDef) (b : Blk)
   omega
 
 end GV.Chain
+
+namespace GV.Chain
+open TxHS
+
+/-- abstraction of the recorded heights: the height stored with an `output_pos` entry is the
+creation height of that unspent output in the replayed state -/
+def AbsH (S : TxHS) (s : UState) : Prop :=
+  ∀ c cp, S.getOutputPos c = some cp → ∃ cb, (c, cp.height, cb) ∈ s.utxo
+
+theorem absH_step {S S' : TxHS} {s : UState} {b : Blk} {sp : List (Nat × CommitPos)}
+    (A : BlockApplied S S' b sp) (ha : AbsH S s) : AbsH S' (effects s b) := by
+  intro c cp hg
+  by_cases hc : c ∈ b.ins
+  · rw [A.idxIn c hc] at hg; cases hg
+  · by_cases ho : c ∈ b.outs.map (·.1)
+    · obtain ⟨i, e, _⟩ := A.idxOut c ho
+      rw [e] at hg
+      injection hg with hg
+      subst hg
+      obtain ⟨o, ho', hoc⟩ := List.mem_map.mp ho
+      refine ⟨o.2, ?_⟩
+      simp only [effects, List.mem_append, List.mem_map]
+      right
+      exact ⟨o, ho', by rw [← hoc]⟩
+    · rw [A.idxOther c hc ho] at hg
+      obtain ⟨cb, hm⟩ := ha c cp hg
+      refine ⟨cb, ?_⟩
+      simp only [effects, List.mem_append, List.mem_filter]
+      left
+      exact ⟨hm, by simpa using hc⟩
+
+/-- the heights recorded by the incremental txhashset along a path are the creation heights of the
+replay (the genesis outputs at the genesis block's own height) -/
+theorem impl_replay_heights (p : Params) (bs : List Blk) : ∀ {S S' : TxHS} {s s' : UState}, RInv S →
+    AbsH S s → (∀ b ∈ bs, cutThroughViolation b = false) → replay p s bs = .ok s' →
+    applyBlocks S bs = .ok S' → AbsH S' s' := by
+  induction bs with
+  | nil =>
+    intro S S' s s' _ ha _ hr hS
+    simp only [replay] at hr
+    simp only [applyBlocks] at hS
+    injection hr with hr
+    injection hS with hS
+    subst hr hS
+    exact ha
+  | cons b bs ih =>
+    intro S S' s s' hi ha hct hr hS
+    simp only [replay] at hr
+    simp only [applyBlocks] at hS
+    cases h1 : applyBlock p s b with
+    | error e => simp only [h1] at hr; cases hr
+    | ok s1 =>
+      simp only [h1] at hr
+      cases h2 : applyBlockImpl S b with
+      | error e => simp only [h2] at hS; cases hS
+      | ok S1 =>
+        simp only [h2] at hS
+        obtain ⟨sp, A⟩ := applyBlockImpl_ok hi (hct b (List.mem_cons_self ..)) h2
+        have he := (applyBlock_ok p s s1 b h1).2.2.2.2
+        exact ih A.rinv (he ▸ absH_step A ha) (fun b' hb' => hct b' (List.mem_cons_of_mem _ hb')) hr hS
+
+end GV.Chain
